@@ -1345,7 +1345,7 @@ func TestVerifC09Calc(t *testing.T) {
 		sp.base.Zones = 2
 		if env.Thorough() {
 			c09CapDim(sp, []int64{0})
-			c09EnvDims(sp, []int64{0, 3}, []int64{0}, []int64{0, 5}, []int64{0}, []string{"", "prod"}, []int64{0})
+			c09EnvDims(sp, []int64{0, 3}, []int64{0}, []int64{0, 5}, []int64{0, 4}, []string{"", "prod"}, []int64{0})
 			sp.addPods(2, c09PodAlpha{prio: []string{"prod", "batch", "none"}, qos: []string{"LSE", "LS"},
 				phase: []string{"Running", "Succeeded"}, numa: []int64{-1, 0}, req: []int64{0, 1, 2}, use: []int64{-1, 1, 3}})
 			c09StrategyDims(sp, c09Cross(c09CPUPols, c09MemPols), c09Reclaim2, []int64{-1, 30})
@@ -1354,13 +1354,13 @@ func TestVerifC09Calc(t *testing.T) {
 			sp = &c09Space{unit: "calc", part: "calc-zones-large", base: c09Base(), endToEnd: true, stub: true}
 			sp.base.Zones = 2
 			c09CapDim(sp, []int64{1})
-			c09EnvDims(sp, []int64{0, 3}, []int64{0}, []int64{0, 5}, []int64{0}, []string{"", "prod"}, []int64{0})
+			c09EnvDims(sp, []int64{0, 3}, []int64{0}, []int64{0, 5}, []int64{0, 4}, []string{"", "prod"}, []int64{0})
 			sp.addPods(2, c09PodAlpha{prio: []string{"prod", "batch"}, qos: []string{"LSE", "LS"},
 				phase: []string{"Running", "Succeeded"}, numa: []int64{-1, 0}, req: []int64{0, 1, 2}, use: []int64{-1, 1, 3}})
 			c09StrategyDims(sp, c09PolPairs, c09Reclaim2, []int64{-1, 30})
 		} else {
 			c09CapDim(sp, []int64{0})
-			c09EnvDims(sp, []int64{0, 3}, []int64{0}, []int64{0, 5}, []int64{0}, []string{"", "prod"}, []int64{0})
+			c09EnvDims(sp, []int64{0, 3}, []int64{0}, []int64{0, 5}, []int64{0, 4}, []string{"", "prod"}, []int64{0})
 			sp.addPods(2, c09PodAlpha{prio: []string{"prod", "batch"}, qos: []string{"LSE", "LS"},
 				phase: []string{"Running"}, numa: []int64{-1, 0}, req: []int64{0, 2}, use: []int64{-1, 1, 3}})
 			c09StrategyDims(sp, c09PolPairs, c09Reclaim2, []int64{-1, 30})
